@@ -27,7 +27,7 @@ type Scenario struct {
 	L    []int             `json:"l,omitempty"`
 }
 
-func (s Scenario) I(k string) int     { return s.N[k] }
+func (s Scenario) I(k string) int      { return s.N[k] }
 func (s Scenario) Str(k string) string { return s.S[k] }
 func (s Scenario) Has(k string) bool {
 	_, a := s.N[k]
@@ -108,6 +108,7 @@ func NewR(sc Scenario) *R {
 	curMu.Unlock()
 	return r
 }
+
 var hangRe = regexp.MustCompile(`hang|dropped|lost-call|blocked|not-closed|blocks|never|wedged|undetected`)
 var hangCount int64
 
@@ -217,7 +218,7 @@ type Exhaustive interface{ Exhaustive(tier string) bool }
 
 var registry = map[string]Prop{}
 
-func Register(p Prop) { registry[p.ID()] = p }
+func Register(p Prop)    { registry[p.ID()] = p }
 func Get(id string) Prop { return registry[id] }
 func All() []string {
 	var ids []string
